@@ -212,8 +212,9 @@ func (f MultipartForm) Do(w http.ResponseWriter, r *http.Request, exec graphql.G
 
 	rc, gerr := exec.CreateOperationContext(r.Context(), &params)
 	if gerr != nil {
-		resp := exec.DispatchError(graphql.WithOperationContext(r.Context(), rc), gerr)
+		// the status follows the errors as reported, not as an error presenter rewrote them
 		w.WriteHeader(statusFor(gerr))
+		resp := exec.DispatchError(graphql.WithOperationContext(r.Context(), rc), gerr)
 		writeJson(w, resp)
 		return
 	}
